@@ -121,7 +121,7 @@ class Gen:
             return ('and', r.choice(['&&', '||', 'and', 'or']), self.boolean(env, depth + 1), self.boolean(env, depth + 1))
         if k == 'lazy':
             self.note('lazy')
-            return ('lazy', r.choice(['&&', '||']), self.boolean(env, depth + 1), self.num(env), self.boolean(env, depth + 1))
+            return ('lazy', r.choice(['&&', '||', 'and', 'or']), self.boolean(env, depth + 1), self.num(env), self.boolean(env, depth + 1))
         return ('cmp', r.choice(['<', '<=', '>', '>=', '==', '!=']), self.num(env), self.num(env))
 
     def arr(self, env):
@@ -249,7 +249,7 @@ class Gen:
                 v = r.choice(env['loc'])
                 return ('assign', False, self.spell(v), self.num(env))
             if self.scoping and r.chance(1, 3):
-                v = r.choice(['_a', '_b', '_c'])          # few names: shadowing across scopes
+                v = r.choice(['_a', '_b', '_c', '_Zq'])   # few names: shadowing across scopes (one with letters from the end of the alphabet, in mixed case)
             else:
                 v = self.fresh('_v')
             e = self.num(env)
@@ -268,7 +268,7 @@ class Gen:
             env['arrs'].append(v)
             return ('assign', False, v, a)
         if k == 'private':
-            v = r.choice(['_a', '_b', '_c']) if self.scoping else self.fresh('_v')
+            v = r.choice(['_a', '_b', '_c', '_Zq']) if self.scoping else self.fresh('_v')
             e = self.num(env)
             decl = ('private', [self.spell(v)] if r.chance(1, 2) else [self.spell(v), self.fresh('_v')], r.chance(1, 2))
             if v not in env['loc']:
@@ -548,7 +548,7 @@ class Interp:
             return (a and b) if n[1] in ('&&', 'and') else (a or b)
         if k == 'lazy':
             a = self.ev(n[2])
-            need = a if n[1] == '&&' else (not a)
+            need = a if n[1] in ('&&', 'and') else (not a)
             if not need:
                 return a
             return self.in_scope(lambda: (self.mark(self.ev(n[3])), self.ev(n[4]))[1])
